@@ -268,6 +268,33 @@ theorem unflagged_follows_rate_grid (P : Spec.Phys) (nEnv : Nat) (g : GridShape)
     (eulerStep (engOfPhysGrid P nEnv g h chem) dt x) i s = x i s + dt * Spec.rate P x.get s i :=
   C01.euler_step_grid_all P nEnv g h chem x dt i s hv hi hh hvol hedge hfaces hc
 
+/-! ## The map of THIS set-up is the one obeyed (one engine, one script, map edited between two runs)
+
+Every `setup` marshals the script afresh (`Gen/Marshal`: `cell_chstt` is `make_ctypes_array(script.system.chemostats, …)`), so a
+later run of the same system after `set_chemostat` / an item assignment / a new map is the run of the engine input with the
+edited map; whatever map an earlier run used is irrelevant. -/
+
+/-- the engine input of a later set-up of the same system, its chemostat map edited in between -/
+def withMap (e : EngIn) (chem' : Nat → Nat → Bool) : EngIn := { e with chem := chem' }
+
+theorem euler_obeys_edited_map (e : EngIn) (chem' : Nat → Nat → Bool) (dt : Rat) (n : Nat) (x : State) (i s : Nat)
+    (h : chem' i s = true) : (eulerIter (withMap e chem') dt n x) i s = x i s :=
+  euler_fixes_flagged (withMap e chem') dt n x i s h
+
+theorem tauleap_obeys_edited_map (e : EngIn) (chem' : Nat → Nat → Bool) (cs : List Counts) (x : State) (i s : Nat)
+    (h : chem' i s = true) : (tauLeapRun (withMap e chem') cs x) i s = x i s :=
+  tauleap_fixes_flagged (withMap e chem') cs x i s h
+
+theorem gillespie_obeys_edited_map (e : EngIn) (chem' : Nat → Nat → Bool) (ds : List (Rat × Rat)) (x : State) (i s : Nat)
+    (h : chem' i s = true) : (gillespieRun (withMap e chem') ds x) i s = x i s :=
+  gillespie_fixes_flagged (withMap e chem') ds x i s h
+
+/-- an entry the edit releases moves again exactly as without any flag at all: the Euler derivative of a free entry does not depend
+on the map (so not on the map of an earlier run either) -/
+theorem euler_released_entry_moves (e : EngIn) (chem' : Nat → Nat → Bool) (x : State) (i s : Nat) (h : chem' i s = false) :
+    eulerDxdt (withMap e chem') x i s = eulerDxdt (withMap e (fun _ _ => false)) x i s :=
+  (euler_other_flags (withMap e chem') (fun _ _ => false) x i s (by simp [withMap, h])).symm
+
 /-! ## Non-vacuity -/
 
 def exNet : Net :=
@@ -282,5 +309,11 @@ def exEng : EngIn :=
 example : exEng.chem 0 1 = true ∧ exEng.chem 0 0 = false := by decide +kernel
 /-- the free entry (cell 0, species 0) does move in one Euler step while the flagged one stays -/
 example : (eulerStep exEng (1/2) ⟨fun _ _ => 4⟩) 0 0 ≠ 4 ∧ (eulerStep exEng (1/2) ⟨fun _ _ => 4⟩) 0 1 = 4 := by decide +kernel
+
+/-- the flag moved from (cell 0, species 1) to (cell 0, species 0) between two runs: the second run keeps species 0 and moves
+species 1 — the opposite of what the map of the first run would give -/
+example : (eulerStep (withMap exEng (fun i s => i == 0 && s == 0)) (1/2) ⟨fun _ _ => 4⟩) 0 0 = 4
+    ∧ (eulerStep (withMap exEng (fun i s => i == 0 && s == 0)) (1/2) ⟨fun _ _ => 4⟩) 0 1 ≠ 4
+    ∧ (eulerStep exEng (1/2) ⟨fun _ _ => 4⟩) 0 1 = 4 := by decide +kernel
 
 end Strengths.C03
